@@ -420,7 +420,7 @@ pub fn synctest(property: &str, seed: u64, faulty: bool, invalid: bool) -> Plan 
             clock_bump_us: 0,
             variable_size_input: false,
             own_snapshots: c.chance(&[13], 300_000),
-            shuffle_submissions: false,
+            shuffle_submissions: c.chance(&[16], 350_000),
             checksum_layout: c.range(&[15], 0, 2) as u8,
         },
         nodes: Vec::new(),
